@@ -391,7 +391,25 @@ def call_result(cases, check_impl=None, nontrivial=None, rule="", model_args=Non
                 viol.append(v)
         if len(samples) < extra_samples or (i[0] == "ERR" and len(samples) < 2 * extra_samples):
             samples.append({"request": line, "impl": list(i), "model": list(m)})
-    return {"evaluations": len(cases), "distinct_nontrivial": nontriv, "rule": rule, "samples": samples,
+    # second pass in REVERSE order in the same process: a deterministic function must give the same answers whatever
+    # ran before it (order-dependent state - e.g. a table filled by the first key seen - shows up here)
+    redo = 0
+    for (fn, args), line in reversed(list(zip(cases, all_lines))):
+        if redo >= 4000:
+            break
+        redo += 1
+        i = core.impl_call(fn, args)
+        if i != mres[line] and not any(d.get("args") == [core.show(a) for a in args] and d.get("fn") == fn for d in diffs):
+            diffs.append({"fn": fn, "args": [core.show(a) for a in args], "impl": list(i), "model": list(mres[line]),
+                          "pass": "second pass, reverse order"})
+            if check_impl:
+                v = check_impl(fn, args, i)
+                if v:
+                    v = dict(v)
+                    v["input"] = {"fn": fn, "args": [core.show(a) for a in args]}
+                    v["note"] = "failed in the second pass (reverse order) of the same run: depends on what ran before"
+                    viol.append(v)
+    return {"evaluations": len(cases) + redo, "distinct_nontrivial": nontriv, "rule": rule, "samples": samples,
             "distribution": dist, "diffs": diffs, "violations": viol}
 
 
